@@ -1,7 +1,7 @@
 """C05 — evaluation is repeatable and leaves the compiled expression unchanged: histories of
 2..5 Evals on one Expr with the same and different inputs, other expressions evaluated in between."""
 import random
-from ..engine import simple_run, project
+from ..engine import simple_run, project, outside_model
 from ..gen.exprs import Gen
 from ..gen.common import gen_doc
 
@@ -61,7 +61,7 @@ def hist_vs_model(ck, part, res):
             if not e or not e.get('model') or e['model'].startswith('X') or 'S756e6d6f64656c6c6564' in e['model']:
                 continue
             ck.stats['history_steps_vs_model'] += 1
-            if project(got) != project(e['model']) and not (got.startswith('P') or '*' in c['expr'] or '$keys' in c['expr'] or '$each' in c['expr'] or '{' in c['expr']):
+            if project(got) != project(e['model']) and not (got.startswith('P') or '{' in c['expr'] or outside_model(c, {'impl': got, 'model': e['model']})):
                 ck.failing_case(c, r, 'direct:history-vs-model: step %d gives %s, the model (stateless) gives %s' % (i, got[:80], e['model'][:80]))
 
 def run(tier, seed, replay=None):
